@@ -669,6 +669,71 @@ theorem scanAndDispatch_spec (cfg : Server.Cfg) (tr : Server.Transport) (now : N
           rfl
 
 
+/-- when the spec's verdict is "a loaded zone answers", the model has scanned all three sections,
+    found the end of the message and an opcode QUERY, and hands over to `handle_query` on the
+    writer state the scan left -/
+theorem scanAndDispatch_answer (cfg : Server.Cfg) (tr : Server.Transport) (now : Nat) (req : Bytes)
+    (q : Option Spec.DQuestion) (question : Option (WName × Nat × Nat))
+    (r1 : Reader) (hi : Inv r1) (ho : r1.octets = req) (s1 : State) (hb : Base s1 tr cfg.payload)
+    (hreq : req.size ≤ Rdata.USIZE_MAX) (htf : TsigFacts) (an ns ar opcode : Nat)
+    (hv : (specTail (catKind cfg) cfg.payload req q r1.cursor an ns ar opcode).verdict = .answer) :
+    Server.scanAndDispatch cfg tr now an ns ar opcode question r1 s1 =
+      (Server.handleQuery cfg question tr >>= fun _ => pure true)
+        (arSt s1 tr cfg.payload (specTail (catKind cfg) cfg.payload req q r1.cursor an ns ar opcode).edns
+          (specTail (catKind cfg) cfg.payload req q r1.cursor an ns ar opcode).limitUdp) := by
+  unfold Server.scanAndDispatch
+  unfold specTail at hv ⊢
+  have hi2 : Inv (setMark r1) := hi
+  have hsp := scanAnNs_spec req (an + ns) (setMark r1) hi2 ho
+  have hc : (setMark r1).cursor = r1.cursor := rfl
+  rw [hc] at hsp
+  simp only
+  cases hpl : Spec.Server.scanPlain req (an + ns) r1.cursor with
+  | none => rw [hpl] at hv; cases hv
+  | some p2 =>
+    rw [hpl] at hsp hv
+    obtain ⟨hsn, hp2, _⟩ := hsp
+    simp only [hsn] at hv ⊢
+    have har := scanAr_spec cfg tr now req ar s1 hb hreq htf ar 0 { setMark r1 with cursor := p2 } false 512
+      (by omega) ⟨hi.1, by rw [show ({ setMark r1 with cursor := p2 } : Reader).octets = r1.octets from rfl, ho]; exact hp2⟩
+      ho (fun _ => rfl)
+    have hst : arSt s1 tr cfg.payload false 512 = s1 := rfl
+    rw [hst] at har
+    simp only at har
+    generalize hres : Spec.Server.scanAr req cfg.payload ar ar p2 false 512 = res at har hv
+    obtain ⟨en, e, l⟩ := res
+    cases en with
+    | formErr => cases hv
+    | badVers => cases hv
+    | tsig => cases hv
+    | done p3 =>
+      simp only [ArPost] at har
+      obtain ⟨har, hp3⟩ := har
+      rw [bind_ok har]
+      have hszm : (setMark r1).octets.size = req.size := by rw [← ho]; rfl
+      simp only [atEom, hszm]
+      simp only at hv
+      by_cases hlt : p3 < req.size
+      · simp only [hlt, if_true] at hv; cases hv
+      · simp only [hlt, if_false] at hv ⊢
+        have : p3 ≥ req.size := by omega
+        simp only [this, decide_true, Bool.not_true, Bool.false_eq_true, if_false]
+        by_cases hop : opcode = 0
+        · subst hop
+          simp only [if_true]
+          -- both sides now agree once the verdict's `edns`/`limitUdp` are read off
+          have hel : ∀ sc : Spec.Server.Scan, sc.edns = e → sc.limitUdp = l →
+              arSt s1 tr cfg.payload sc.edns sc.limitUdp = arSt s1 tr cfg.payload e l := by
+            intro sc h1 h2; rw [h1, h2]
+          simp only [ne_eq, not_true_eq_false, if_false] at hv ⊢
+          cases q with
+          | none => cases hv
+          | some qq =>
+            simp only at hv ⊢
+            repeat' split
+            all_goals first | rfl | (simp_all)
+        · simp only [ne_eq, hop, not_false_eq_true, if_true] at hv; cases hv
+
 /-! ### `handle_message_with_context` -/
 
 /-- the writer as `handle_message_with_context` finds it: nothing but the header -/
